@@ -34,6 +34,7 @@ def rstr(rng, b, must_quote=False):
         if c in (34, 92): out += b"\\" + bytes([c])
         elif c in esc and rng.random() < 0.7: out += esc[c]
         elif c == 0 or (rng.random() < 0.1): out += b"\\x%02x" % c
+        elif c not in b"abfnrtvx" and rng.random() < 0.08: out += b"\\" + bytes([c])     # generic escape: backslash + the byte itself
         else: out.append(c)
     return bytes(out + b'"')
 
